@@ -17,18 +17,20 @@ theorem failed_sticky (es : List Ev) (w : World) (h : w.main = .failed) : (run w
 
 /-- `Manager.got_wormhole_versions` with nothing in common: the Failure is stored and every
     waiting connect() gets it -/
-theorem incapable_fails (v : Vers) (w : World) (hv : falsy (findShared Consts.DILATION_VERSIONS v.can) = true) :
+theorem incapable_fails (v : Vers) (w : World) (dv : Option String) (hs : sharedVersion v = .ok dv)
+    (hv : falsy dv = true) :
     (mgrGotVersions v w).1.main = .failed ∧ (mgrGotVersions v w).1.mainObs = [] ∧
     ∀ id ∈ w.mainObs, Thunk.waiter id false ∈ (mgrGotVersions v w).1.queue := by
   unfold mgrGotVersions
-  simp only [hv, ↓reduceIte]
+  rw [hs]
+  simp only [mgrGotVersionsWith, hv, ↓reduceIte]
   -- `self.start()` afterwards: the Automat input does not touch `_main_channel` and only adds to the queue
   have hstart : ∀ u : World, (mInput .start "" 0 u).1.main = u.main ∧ (mInput .start "" 0 u).1.mainObs = u.mainObs ∧
       ∀ t ∈ u.queue, t ∈ (mInput .start "" 0 u).1.queue := by
     intro u
     unfold mInput
     cases hms : u.ms <;> simp [Manager.table, mOuts, mOut, andThen, sendGen, emit]
-  obtain ⟨a, b, c⟩ := hstart (mainError { w with dver := findShared Consts.DILATION_VERSIONS v.can })
+  obtain ⟨a, b, c⟩ := hstart (mainError { w with dver := dv })
   refine ⟨a.trans rfl, b.trans rfl, ?_⟩
   intro id hid
   apply c
